@@ -51,17 +51,21 @@ def run(R, pid, tier, seed):
                           "(maps = uninterpreted functions of map and key). 'Never loses a version across any history' is ARGUED from C18's table + these step "
                           "obligations + the run-level obligations of C06/C07; it is not decided as one query"]
         _guard(R, pid, "apply", lambda: bisynclib.apply_obligations(ctx, R, prover, pid))
+        # a stale recorded state makes a LATER run delete a re-created file: the run-level record obligation is C02's too
+        _guard(R, pid, "run_bisync", lambda: bisynclib.run_obligations(ctx, R, prover, pid, U))
     elif pid == "C06":
         R.assumptions += ["apply's effect on the common map is decided here at step level and then USED as a contract inside the run_bisync obligation (compositional)",
                           "mtime-independence and order-independence of the DECISION are C18's symmetry / equality-only obligations; the winner rule (greater BLAKE3) is decided here",
                           "idempotence of a second run is argued from: recorded state = tree (decided) + C18 (equal everywhere => Noop); not decided as one query"]
         _guard(R, pid, "apply", lambda: bisynclib.apply_obligations(ctx, R, prover, pid))
         _guard(R, pid, "run_bisync", lambda: bisynclib.run_obligations(ctx, R, prover, pid, U))
+        _guard(R, pid, "root_pair_hash", lambda: bisynclib.pair_hash_obligation(ctx, R, prover, pid))
     elif pid == "C07":
         R.assumptions += ["serde_json is a contract (any Archive value or an error), std::fs::read any bytes or an error: a missing / empty / truncated / unparsable archive is "
                           "a read or parse failure, another format version or pair is a parsed value failing the gate",
                           "'no delete without a trusted base' for the decision itself is C18's obligation, re-asked here"]
         _guard(R, pid, "Archive::load", lambda: bisynclib.load_obligations(ctx, R, prover, pid))
+        _guard(R, pid, "root_pair_hash", lambda: bisynclib.pair_hash_obligation(ctx, R, prover, pid))
         _guard(R, pid, "run_bisync", lambda: bisynclib.run_obligations(ctx, R, prover, pid, U))
         _guard(R, pid, "apply", lambda: bisynclib.apply_obligations(ctx, R, prover, "C02"))
     elif pid == "C08":
